@@ -316,3 +316,23 @@ Proof.
     rewrite E, UL. cbn [nth ssq vscale map]. r01. replace (2 * 2 + 0) with (2 * 2) by ring. rewrite sqrt_square by lra.
     f_equal. field.
 Qed.
+
+(* interface with ANY weights P and / or index i, norm=None, over any commutative ring: the fully contracted vector of
+   either sweep (vector 0 from the right, vector d from the left) is  sum_idx (prod_k w_k[idx_k]) * Y[idx],  where w_k
+   is the mode-k weight vector the code contracts with (omega: ones / p_k / e_{i_k} / p_k[i_k] e_{i_k}) *)
+Theorem C01_interface_total : forall (T : Type) (K : ops T), rng K -> forall Y P i, chain 1 Y 1 ->
+  nth O (nth O (interface K Y P i NormNone false) []) (o0 K) =
+    msum K (shape Y) (fun idx => omul K (pw K (Wof K Y P i) idx) (get K Y idx)) /\
+  nth O (nth (length Y) (interface K Y P i NormNone true) []) (o0 K) =
+    msum K (shape Y) (fun idx => omul K (pw K (Wof K Y P i) idx) (get K Y idx)).
+Proof. exact @interface_total. Qed.
+Theorem C01_interface_weights : forall (T : Type) (K : ops T) Y P i k, (k < length Y)%nat ->
+  nth k (Wof K Y P i) [] = omega K (cn (nth k Y (mk_core 0 0 0 []))) (optnth P k) (optnth i k).
+Proof. exact @Wof_nth. Qed.
+(* <Y1 - Y2, Y1 - Y2> computed through sub and mul_scalar = sum over all multi-indices of (Y1[idx] - Y2[idx])^2, over any
+   commutative ring (with C01_mul_scalar_spec this turns the norms used by the stabilised accuracy of C16 into dense ones) *)
+Theorem C01_mul_scalar_sub_spec : forall (T : Type) (K : ops T), rng K -> forall Y1 Y2 : list (core T),
+  (2 <= length Y1)%nat -> chain 1 Y1 1 -> chain 1 Y2 1 -> same_shape Y1 Y2 ->
+  mul_scalar K (sub K Y1 Y2) (sub K Y1 Y2) =
+  msum K (shape Y1) (fun idx => omul K (osub K (get K Y1 idx) (get K Y2 idx)) (osub K (get K Y1 idx) (get K Y2 idx))).
+Proof. exact @mul_scalar_sub_spec. Qed.
